@@ -212,7 +212,7 @@ def attr_t(tks, nameset):
 PROPS["C14"] = dict(
     level_text='ParseSpec (functional) and the grammar automaton accept the same language (MC_Text, all strings to length 4/5 over 16 symbols); recorded parse events (all short strings, sentences and mutations, bytes) and formatting events are validated against ParseSpec, ToSci/TextOf and FmtPad.',
     mc=[("MC_Text", None)],
-    drivers=["parse", "format"],
+    drivers=["parse", "gentext", "format"],
     attr=attr_t({"parse", "text", "format"}, {"accept", "nilret", "parse-val", "parse-pre", "text", "format", "panic"}),
     rule="parsing: every string of length <=4 (thorough 5) over a 16-symbol alphabet, grammar sentences and their single/"
          "double character mutations, keyword neighbours, limit cases, seeded bytes, through SetString/NewFromString/"
